@@ -71,6 +71,19 @@ def run(ctx):
                     ctx.violation("narrowing:%s:%s" % (short(o), f.text(n["sub"])[:40]), "E-TYPE narrowing", f.loc(i),
                                   "a %d-bit value (%s) is implicitly narrowed to %d bits: byte counts above 2 GiB are truncated" % (
                                       fb, f.text(n["sub"])[:60], tb))
+            elif ck == "IntegralToFloating" and n.get("tw") == "f32" and n.get("fromtw") in ("i64", "u64"):
+                # a 64-bit byte count squeezed through single precision (24-bit mantissa): 8 KiB steps at 64 GiB
+                Xn = Expander(P, f)
+                srct = Xn(n["sub"])
+                metric = re.search(r"\b(swap_usage|current_usage|effective_usage|anon_usage|pg_scan_rate|pg_scan_cumulative|io_cost_rate|memory_growth)\(", srct)
+                n_casts += 1
+                if metric:
+                    ctx.violation("metric-through-float:%s:%s" % (short(o), metric.group(1)), "E-TYPE narrowing", f.loc(i),
+                                  "the ranking metric %s (64-bit byte count) is converted to single-precision float (%s): siblings whose keys differ by less than "
+                                  "the float step (8 KiB at 64 GiB) tie or swap places" % (metric.group(1), f.text(n["sub"])[:60]))
+                else:
+                    ctx.ok("i64-to-float-operand:%s@%d" % (short(o), n.get("line", 0)), "E-TYPE narrowing(audited class)", f.loc(i),
+                           "a 64-bit operand other than the ranking metric enters float arithmetic (bias term x float ratio): " + f.text(n["sub"])[:50])
             elif ck == "FloatingToIntegral":
                 tb = bits(n.get("tw"))
                 if tb and tb <= 32:
